@@ -23,7 +23,7 @@ EXPLANATION = (
     "(delay, name) pairs come from that var's own table; _get_var_hist keys both levels by the (var, delay) it was asked for.  R3 every "
     "fixed-step solver override either feeds the DDEHistory after the state update under an isinstance(DDEHistory) test or raises when "
     "handed one.  R4 the time handed to the history is (i+1)*dt (time units, post-update) and the state is the updated state; the scipy "
-    "DDE path forwards solout's (t, y) unchanged and queries func with the same hist object.  NOT decided: convergence, DDEHistory "
+    "DDE path forwards solout's (t, y) unchanged and queries func with the same hist object, and the history is fed by a per-step callback (not only at output samples).  R2 also: past(x, d) requests the history of (argument 0, argument 1), and a (start, stop) state range is narrowed to `start` only under a test that implies stop - start <= 1.  NOT decided: convergence, DDEHistory "
     "itself (C19), the Julia/Matlab DDE bridges."
 )
 RULE_TEXT = "instances = add_var_hist overrides, solver overrides, scipy DDE wrappers; non-trivial = template algebra, def-use or ordering argument"
@@ -270,6 +270,52 @@ def r2_history_index_is_state_index(ctx, rid):
         ok_idx = bool(roots) and all(
             r is not None and isinstance(r, ast.Subscript) and is_attr_of(r.value, selfn, "_state_var_indices")
             and is_loop_var(r.slice) and contains(outer, r) for r in roots)
+    # a (start, stop) range may be narrowed to its start only when it holds ONE entry: the narrowing statement `idx = idx[0]` must
+    # be guarded by stop - start <= 1 (the generated look-up `hist(..)[start]` of a wider range reads one unit for all of them)
+    if isinstance(idx_node, ast.Name):
+        cfg = ctx.cfg(f)
+        nm = idx_node.id
+        for d in [x for x in cfg.stmts() if isinstance(x, ast.Assign) and len(x.targets) == 1 and isinstance(x.targets[0], ast.Name)
+                  and x.targets[0].id == nm and isinstance(x.value, ast.Subscript) and isinstance(x.value.value, ast.Name)
+                  and x.value.value.id == nm and isinstance(x.value.slice, ast.Constant) and x.value.slice.value == 0]:
+            bound = None          # largest width for which the narrowing can execute
+            seen_width_test = False
+            W = sp.Symbol("W", integer=True)
+            for g in [a for a in _anc(d) if isinstance(a, ast.If) and any(contains(b, d) for b in a.body)]:
+                for t in (g.test.values if isinstance(g.test, ast.BoolOp) and isinstance(g.test.op, ast.And) else [g.test]):
+                    if not (isinstance(t, ast.Compare) and len(t.ops) == 1):
+                        continue
+
+                    def leaf(n_):
+                        if isinstance(n_, ast.Subscript) and isinstance(n_.value, ast.Name) and n_.value.id == nm and isinstance(n_.slice, ast.Constant):
+                            return {0: sp.Integer(0), 1: W}.get(n_.slice.value)
+                        if isinstance(n_, ast.Call) and call_name(n_) == "len" and n_.args and isinstance(n_.args[0], ast.Call) \
+                                and call_name(n_.args[0]) == "range":
+                            return None
+                        return None
+                    try:
+                        l_, r_ = symx.to_sympy(t.left, leaf=leaf), symx.to_sympy(t.comparators[0], leaf=leaf)
+                    except symx.Unsupported:
+                        continue
+                    if W not in (l_ - r_).free_symbols or (l_ - r_).free_symbols != {W}:
+                        continue
+                    seen_width_test = True
+                    rel = {ast.Lt: sp.Lt, ast.LtE: sp.Le, ast.Gt: sp.Gt, ast.GtE: sp.Ge, ast.Eq: sp.Eq}.get(type(t.ops[0]))
+                    if rel is None:
+                        continue
+                    ok_w = [w for w in range(0, 12) if bool(rel(l_, r_).subs(W, w))]
+                    mx = max(ok_w) if ok_w else 0
+                    bound = mx if bound is None else min(bound, mx)
+            label = "a history range is narrowed to one index only when it has one entry"
+            if not seen_width_test or bound is None:
+                raise AnalysisError(f"{rid}: the narrowing `{norm(d)}` in to_func is not guarded by a recognisable test of the range width")
+            if bound <= 1:
+                ctx.ok(rid, f, d, "the (start, stop) range of a delayed variable is narrowed to `start` only when stop - start <= 1",
+                       {"largest_width_narrowed": bound}, label=label)
+            else:
+                ctx.violation(rid, f, d, f"a (start, stop) range of width up to {bound} is narrowed to its start: the history look-up of a delayed "
+                                         f"vector variable with {bound} entries reads entry `start` for all of them", {"largest_width_narrowed": bound},
+                              label=label)
     facts = {"state_idx_defs": chain, "outer_loop": norm(outer)}
     if ok_idx:
         ctx.ok(rid, f, call, f"state_idx derives from _state_var_indices[{var_name}] of the loop's own variable", facts, label="state_idx provenance")
